@@ -1,5 +1,6 @@
 /- Driver commands `js.*` (C14). -/
 import PasskeyVerif.Model.WebauthnJson
+import PasskeyVerif.Model.ClientDataJson
 import PasskeyVerif.Model.SerdeStruct
 import PasskeyVerif.Model.SerdeSer
 import PasskeyVerif.Generated.WebauthnSchema
@@ -140,12 +141,33 @@ def step (st : St) (op : List String) (impl : String) : St × String :=
       match parseStrict t with
       | none => (st, impl ++ "\tna")
       | some j =>
-        let want := clientDataOrder (keysOf j)
-        let got : Option (List String) :=
-          if impl.startsWith "ok:" then ((textOfHex (impl.drop 3).toString).bind parseStrict).map keysOf else none
-        match got with
-        | none => (st, impl ++ "\tfail:client-data-does-not-round-trip")
-        | some g => (st, impl ++ "\t" ++ (if g = want then "ok" else "fail:client-data-members-not-in-the-specified-order"))
+        -- model: the value-level parse / re-serialise cycle (Model/ClientDataJson.lean); Spec: the statement on the
+        -- implementation's own output (the four first, once, with the document's values; the rest as they came)
+        let ms : ClientDataJson.Members := match j with | .obj l => l | _ => []
+        let got : Option ClientDataJson.Members :=
+          if impl.startsWith "ok:" then ((textOfHex (impl.drop 3).toString).bind parseStrict).map (fun g => match g with | .obj l => l | _ => []) else none
+        let show_ (l : ClientDataJson.Members) : String := "ok:model:" ++ ",".intercalate (l.map (·.1))
+        match ClientDataJson.reser ms, got with
+        | none, none => (st, (if impl = "err" then impl else "err") ++ "\tna")
+        | none, some _ => (st, "err\tna")
+        | some want, none => (st, show_ want ++ "\t" ++ (if impl.startsWith "ok:" then "fail:client-data-does-not-round-trip" else "na"))
+        | some want, some g =>
+          let names := ms.map (·.1)
+          let distinct := names.eraseDups.length == names.length
+          let others := ms.filter (fun p => !ClientDataJson.isFixed p.1)
+          let firstOk := (g.take 4).map (·.1) == ClientDataJson.fixedKeys
+            && (g.drop 4).all (fun p => !ClientDataJson.isFixed p.1)
+            && ["type", "challenge", "origin"].all (fun k => match ClientDataJson.lookup ms k, ClientDataJson.lookup g k with
+                | some a, some b => ClientDataJson.jsonBeq a b | _, _ => false)
+            && (match ClientDataJson.lookup g "crossOrigin" with
+                | some (.bool b) => b == (match ClientDataJson.lookup ms "crossOrigin" with | some (.bool true) => true | _ => false)
+                | _ => false)
+          let restOk := if distinct then ClientDataJson.membersBeq (g.drop 4) others
+            else ((g.drop 4).map (·.1)).all (fun k => others.any (fun p => p.1 == k))
+          let verdict := if !firstOk then "fail:client-data-members-not-in-the-specified-order"
+            else if !restOk then "fail:client-data-other-members-not-kept-in-their-original-order"
+            else "ok"
+          (st, (if ClientDataJson.membersBeq g want then impl else show_ want) ++ "\t" ++ verdict)
   | _ => (st, "bad-op\tna")
 
 end PasskeyVerif.Driver.WebJson
